@@ -154,6 +154,24 @@ let do_names (w : string array) : unit =
   print_string (String.concat " " (List.map (fun (k, r) -> Printf.sprintf "%d:%d" (int_of_nat k) (int_of_nat r)) st.n_live));
   print_newline ()
 
+(* RESOLVE { D name | X name | R }* Q name  ->  object number the name resolves to, or "-"   (NameRefModel) *)
+let do_resolve (w : string array) : unit =
+  let n = Array.length w in
+  let ops = ref [] in
+  let p = ref 1 in
+  let q = ref 0 in
+  while !p < n do
+    (match w.(!p) with
+     | "D" -> ops := RDefine (nat_of_int (int_of_string w.(!p + 1))) :: !ops; p := !p + 2
+     | "X" -> ops := RDelete (nat_of_int (int_of_string w.(!p + 1))) :: !ops; p := !p + 2
+     | "R" -> ops := RReset :: !ops; p := !p + 1
+     | "Q" -> q := int_of_string w.(!p + 1); p := !p + 2
+     | _ -> failwith "RESOLVE: bad token")
+  done;
+  (match resolve (r_run (List.rev !ops) r_empty) (nat_of_int !q) with
+   | None -> print_string "-\n"
+   | Some o -> Printf.printf "%d\n" (int_of_nat o))
+
 let () =
   try
     while true do
@@ -162,6 +180,7 @@ let () =
       if Array.length w > 0 && w.(0) = "MOP" then do_mop w
       else if Array.length w > 0 && w.(0) = "CHK" then do_chk w
       else if Array.length w > 0 && w.(0) = "NAMES" then do_names w
+      else if Array.length w > 0 && w.(0) = "RESOLVE" then do_resolve w
       else if Array.length w > 0 then begin
         let p = ref 1 in
         let next () = let s = w.(!p) in Stdlib.incr p; s in
